@@ -79,6 +79,8 @@ class Check:
         self.rule = ""
         self.known = load_known(prop)
         self.tlc_runs = []
+        self.per_key = {}
+        self.first_path = {}
 
     @property
     def quick(self):
@@ -306,6 +308,11 @@ class Check:
                 if k["key"] not in self.known_hits:
                     self.known_hits[k["key"]] = k.get("what", "")
                 return
+        self.per_key[fullkey] = self.per_key.get(fullkey, 0) + 1
+        if self.per_key[fullkey] > 3:
+            # enough replay files for this finding signature
+            self.violations.append((fullkey, what, self.first_path.get(fullkey, "")))
+            return
         sha = hashlib.sha1(json.dumps(payload, sort_keys=True, ensure_ascii=False).encode()).hexdigest()[:12]
         rdir = os.path.join(os.environ.get("VERIF_REPLAY_DIR") or os.path.join(VERIF, "replays"), self.prop)
         if os.environ.get("VERIF_NO_EVIDENCE"):
@@ -319,6 +326,7 @@ class Check:
         payload["repo"] = repo_describe()
         with open(path, "w") as f:
             json.dump(payload, f, indent=1, ensure_ascii=False)
+        self.first_path.setdefault(fullkey, path)
         self.violations.append((fullkey, what, path))
 
     def finish(self, level="model_checking"):
